@@ -87,31 +87,50 @@ def _get_active_realizations(
     objective_weights: NDArray[np.float64] | None = None,
     constraint_weights: NDArray[np.float64] | None = None,
 ) -> tuple[NDArray[np.bool_] | None, NDArray[np.bool_] | None]:
-    if objective_weights is None:
-        active_realizations = np.abs(config.realizations.weights) > 0
-        if np.all(active_realizations):
+    active_realizations = np.abs(config.realizations.weights) > 0
+    if objective_weights is None and constraint_weights is None:
+        # The weights in force are not known yet. If realization filters are
+        # used they are calculated from the function values, and these are
+        # needed for all realizations, even if the configured weight is zero:
+        if _filters_in_use(config) or np.all(active_realizations):
             return None, None
-        active_objectives = np.broadcast_to(
+    active_objectives = (
+        np.broadcast_to(
             active_realizations,
             (config.objectives.weights.size, active_realizations.size),
         )
-        active_constraints = (
-            None
-            if config.nonlinear_constraints is None
-            else np.broadcast_to(
+        if objective_weights is None
+        else np.abs(objective_weights) > 0
+    )
+    active_constraints = (
+        None
+        if config.nonlinear_constraints is None
+        else (
+            np.broadcast_to(
                 active_realizations,
                 (
                     config.nonlinear_constraints.lower_bounds.size,
                     active_realizations.size,
                 ),
             )
+            if constraint_weights is None
+            else np.abs(constraint_weights) > 0
         )
-        return active_objectives, active_constraints
-    active_objectives = np.abs(objective_weights) > 0
-    active_constraints = (
-        None if constraint_weights is None else np.abs(constraint_weights) > 0
     )
     return active_objectives, active_constraints
+
+
+def _filters_in_use(config: EnOptConfig) -> bool:
+    objective_filters = config.objectives.realization_filters
+    constraint_filters = (
+        None
+        if config.nonlinear_constraints is None
+        else config.nonlinear_constraints.realization_filters
+    )
+    return bool(
+        (objective_filters is not None and np.any(objective_filters >= 0))
+        or (constraint_filters is not None and np.any(constraint_filters >= 0))
+    )
 
 
 def _transform_evaluator_result(
